@@ -1089,6 +1089,9 @@ func (tee TemplElementExpression) Write(w io.Writer, indent int) error {
 	if err != nil {
 		source = []byte(tee.Expression.Value)
 	}
+	// An expression that gofmt can't format (e.g. one that starts with a function literal) keeps the
+	// indentation it has, otherwise its lines would be indented further on every run.
+	unformatted := err != nil
 	// Indent all lines and re-format, we can then use this to only re-indent lines that gofmt would modify.
 	reformattedSource, err := format.Source(bytes.ReplaceAll(source, []byte("\n"), []byte("\n\t")))
 	if err != nil {
@@ -1106,7 +1109,7 @@ func (tee TemplElementExpression) Write(w io.Writer, indent int) error {
 		if _, err := io.WriteString(w, "\n"); err != nil {
 			return err
 		}
-		if string(sourceLines[i]) != string(reformattedSourceLines[i]) {
+		if unformatted || string(sourceLines[i]) != string(reformattedSourceLines[i]) {
 			if _, err := w.Write(sourceLines[i]); err != nil {
 				return err
 			}
